@@ -769,13 +769,14 @@ def case_swaps(ctx):
         prob = make_vibronic_problem(ctx)
     n = len(prob.basis)
     nsw = int(rng.integers(1, 9))
-    algo = ["Hopcroft-Karp", "Hopcroft-Karp", "Hungarian"][int(rng.integers(0, 3))]
+    algo = ["Hopcroft-Karp", "Hungarian", "qr", "qr"][int(rng.integers(0, 4))]
+    build_algo = "qr" if rng.random() < 0.3 else "Hopcroft-Karp"
     walk = [int(rng.integers(0, n - 1)) for _ in range(nsw)]
     ctx.describe({"family": "swaps", "model": prob.kind, "swap_jw": prob.swap_jw, "desc": prob.desc, "walk": walk,
                   "algo": algo})
-    ctx.cls("model:" + prob.kind, f"swap_jw:{prob.swap_jw}", "swap-algo:" + algo)
+    ctx.cls("model:" + prob.kind, f"swap_jw:{prob.swap_jw}", "swap-algo:" + algo, "build-algo:" + build_algo)
     sig = ("swap_jw" if prob.swap_jw else "plain-swap") + "|" + prob.tag
-    mpo = ctx.lib(Mpo, Model(list(prob.basis), list(prob.terms)), what="Mpo")
+    mpo = ctx.lib(Mpo, Model(list(prob.basis), list(prob.terms)), algo=build_algo, what="Mpo")
     ctx.count("oracle")
     if not ctx.close(mpo.todense(), prob.ref0, TOL, f"{sig}|operator-differs-before-any-swap", scale=prob.scale):
         return
